@@ -659,6 +659,14 @@ def answerSeekhist (msg : Bytes) (ops : List String) : String :=
 def showOrdering : Ordering → String
   | .lt => "lt" | .eq => "eq" | .gt => "gt"
 
+/-- the verdict of `Ord::cmp` as the harness prints it; the `ub` outcome (an out-of-range unchecked
+    access) prints as `ub` and can never match the implementation's line -/
+def showCmp : Res Ordering → String
+  | .ok o => showOrdering o
+  | .err e => "err " ++ showErr e
+  | .panic k => showPanic k
+  | .ub => "ub"
+
 def kindOfString : String → Option NameKind
   | "heap" => some .heap | "inline" => some .inline | _ => none
 
@@ -667,7 +675,7 @@ def answerCmp (a b : Bytes) : String :=
   match parseName .heap a, parseName .heap b, parseName .inline a, parseName .inline b with
   | .ok na, .ok nb, .ok ia, .ok ib =>
     let feed (x : Bytes) := toHex (nameHashFeed x).toArray
-    s!"eq={nameEq na nb} cmp={showOrdering (nameCmp na nb)} ieq={nameEq ia ib} icmp={showOrdering (nameCmp ia ib)} " ++
+    s!"eq={nameEq na nb} cmp={showCmp (nameCmpU na nb)} ieq={nameEq ia ib} icmp={showCmp (nameCmpU ia ib)} " ++
       s!"xeq={nameEq ia nb} ha={feed na} hb={feed nb} iha={feed ia} " ++
       s!"conv={toHex na}:{showRes toHex (toInline na)}:{showRes toHex (toHeap ia)}"
   | _, _, _, _ => "badname"
